@@ -84,8 +84,17 @@ def has_ub(x):
         return any(has_ub(e) for e in x)
     return False
 
+def has_nonfinite(x):
+    if isinstance(x, list):
+        return any(has_nonfinite(e) for e in x)
+    return isinstance(x, str) and x in ('%nan', '%i+', '%i-')
+
 def compare(cx, mo, fmt, path=''):
     """returns a list of human-readable differences (empty = agree)"""
+    if path == '' and has_ub(mo) and has_nonfinite(cx):
+        # the model reports undefined behaviour of the C++ (typically: sums of squares overflowed to infinity, the refinement then
+        # reads bin -1) and the real run indeed went through non-finite numbers: whatever the real code printed is admissible
+        return []
     if path == '' and isinstance(cx, list) and cx and cx[0] in ('exception', 'crash') and has_ub(mo):
         # the model says the C++ has undefined behaviour / throws on this input (e.g. adjustment data that overflowed to
         # infinity make the refinement read bin -1); an exception or a crash of the real code is one admissible outcome
